@@ -463,6 +463,12 @@ def sumW (m : Int) (l : List Int) : Int := l.foldl (fun acc x => wrap m (acc + x
 def crossOutDegreeW (m : Int) (A : Adj) (L1 L2 : List Nat) : List Int :=
   (blockN A L1 L2).map fun r => sumW m (r.map fun (x : Nat) => (x : Int))
 
+/-- `path_lengths()` of the unweighted network (igraph's `distances()`), specified by the frontier
+BFS of C03's model `Pyunicorn.Net.dist`; node numbers `≥ n` do not exist (`none`; the driver and
+numpy raise `IndexError` before any such entry is read) -/
+def distQ (n : Nat) (A : Adj) : Dist := fun a b =>
+  if a < n ∧ b < n then (Pyunicorn.Net.dist n A a b).map fun (k : Nat) => (k : Rat) else none
+
 /-! ### specification vocabulary -/
 
 /-- sum over the unordered pairs of positions `k < j` of a list of `f L[j] L[k]`
